@@ -6,6 +6,7 @@ import (
 	"fmt"
 	"math/rand"
 	"sort"
+	"strings"
 	"sync"
 	"sync/atomic"
 	"time"
@@ -41,7 +42,7 @@ func init() {
 		Run:     runC17,
 		Rule: "seeded cases: SkipInterval in {negative,1ms,20ms,200ms,default}, 0..5 callbacks (nil and empty slice), phases of concurrent bursts (1..32 callers) and sequential calls separated by sleeps of {0, Skip/2, 1.3*Skip}; " +
 			"oracle over the callback log and the callers' call/return timestamps (monotonic bracketing only, never a deadline); distinct_nontrivial = distinct (interval, callbacks, phase pattern) cases with at least one accepted and one further call",
-		Required:    []string{"calls.accepted", "calls.rejected", "nothing_to_invalidate", "spacing.pairs", "must_accept.checked", "burst.cases", "chain.cases", "spacing.tightened_by_previous_run", "registered_during_run.calls_checked", "panic.second_call_within_interval"},
+		Required:    []string{"calls.accepted", "calls.rejected", "nothing_to_invalidate", "spacing.pairs", "must_accept.checked", "burst.cases", "chain.cases", "spacing.tightened_by_previous_run", "registered_during_run.calls_checked", "panic.second_call_within_interval", "cascade.cases"},
 		Assumptions: []string{"monotonic clock readings of time.Now() are consistent across goroutines"},
 		Timeout:     func(string) time.Duration { return 45 * time.Minute },
 	})
@@ -63,6 +64,10 @@ func runC17(b *Batch) {
 			defer func() { <-sem }()
 			if i%16 == 11 {
 				c17Panic(b, i)
+				return
+			}
+			if i%16 == 5 {
+				c17Cascade(b, i)
 				return
 			}
 			c17Case(b, i)
@@ -460,5 +465,58 @@ func c17Panic(b *Batch, idx int) {
 		if err3 != nil {
 			fail("not-accepted-after-interval", fmt.Sprintf("call after SkipInterval returned %v", err3))
 		}
+	}
+}
+
+// c17Cascade: what an Invalidator does depends on its own history only, not on the context it is given. A callback of one
+// Invalidator invalidates a second one with the context it received (cascading caches); a context captured inside a callback
+// is used later for a third. Each of them has never run before: the call is accepted and runs every callback once, in order.
+func c17Cascade(b *Batch, idx int) {
+	rng := rand.New(rand.NewSource(b.CaseSeed(idx)))
+	mk := func(name string, n int, log *[]string, extra func(ctx context.Context)) *cache.Invalidator {
+		inv := &cache.Invalidator{SkipInterval: []time.Duration{time.Hour, 0, time.Millisecond}[rng.Intn(3)]}
+		for c := 0; c < n; c++ {
+			c := c
+			inv.Callbacks = append(inv.Callbacks, func(ctx context.Context) {
+				*log = append(*log, fmt.Sprintf("%s/%d", name, c))
+				if c == 0 && extra != nil {
+					extra(ctx)
+				}
+			})
+		}
+		return inv
+	}
+	var log []string
+	var captured context.Context
+	var childErr error
+	nChild, nParent, nLate := 1+rng.Intn(3), 1+rng.Intn(3), 1+rng.Intn(3)
+	child := mk("child", nChild, &log, nil)
+	parent := mk("parent", nParent, &log, func(ctx context.Context) {
+		captured = context.WithValue(ctx, c17CallID{}, 99) // derived from the callback's context
+		childErr = child.Invalidate(ctx)
+	})
+	late := mk("late", nLate, &log, nil)
+	b.R.Eval()
+	b.R.Count("cascade.cases", 1)
+	b.R.Nontrivial(fmt.Sprintf("cascade/%d/%d/%d", nParent, nChild, nLate))
+	perr := parent.Invalidate(context.WithValue(bg, c17CallID{}, 1))
+	var lerr error
+	if captured != nil {
+		lerr = late.Invalidate(captured)
+	}
+	var want []string
+	want = append(want, "parent/0")
+	for c := 0; c < nChild; c++ {
+		want = append(want, fmt.Sprintf("child/%d", c))
+	}
+	for c := 1; c < nParent; c++ {
+		want = append(want, fmt.Sprintf("parent/%d", c))
+	}
+	for c := 0; c < nLate; c++ {
+		want = append(want, fmt.Sprintf("late/%d", c))
+	}
+	if perr != nil || childErr != nil || lerr != nil || strings.Join(log, ",") != strings.Join(want, ",") {
+		b.R.Violate(b, idx, "C17:cascade:first-call-rejected-or-callbacks-skipped", fmt.Sprintf("three Invalidators that never ran before: parent returned %v, child (invalidated from the parent's callback with the callback's context) %v, a third one (context captured in the callback, used after the run) %v; callbacks run: %v, want %v", perr, childErr, lerr, log, want),
+			map[string]interface{}{"log": log, "want": want})
 	}
 }
